@@ -7,7 +7,7 @@
    written from osmformat.proto. *)
 From Coq Require Import ZArith List Bool.
 From Verif Require Import Base.Int64 Pbf.Tree Pbf.Model Pbf.Spec Pbf.Header Pbf.CheckLib Pbf.ProofsArith Pbf.ProofsIndep
-     Pbf.ProofsDecode Pbf.ProofsDense Pbf.ProofsAll Pbf.ProofsHeader Pbf.ProofsFile Pbf.ProofsNoPanic Pbf.ProofsLayout.
+     Pbf.ProofsDecode Pbf.ProofsDense Pbf.ProofsAll Pbf.ProofsHeader Pbf.ProofsFile Pbf.ProofsNoPanic Pbf.ProofsLayout Pbf.ProofsHeaderLayout.
 Import ListNotations.
 Open Scope Z_scope.
 
@@ -154,3 +154,15 @@ Example C01_witness_layout :
   canon_block m = encode_block C01_witness_block
   /\ scan_result cfg_all dstate0 m = Ok (elements C01_witness_block).
 Proof. vm_compute. split; reflexivity. Qed.
+
+(* 8. the same for the header: for EVERY message tree the header decoder gives the same result on the
+      tree and on its canonical form (unknown fields dropped, fields and the bbox sub-message stably
+      sorted); hence any layout of a valid header description is reported unchanged by Header(). *)
+Theorem C01_header_decoder_layout_independent : forall m, decode_header (canon_header m) = decode_header m.
+Proof. exact decode_header_canon. Qed.
+Print Assumptions C01_header_decoder_layout_independent.
+
+Theorem C01_header_faithful_every_layout : forall h m,
+  valid_header h = true -> canon_header m = encode_header h -> decode_header m = Ok (header_of h).
+Proof. exact header_layout_irrelevant. Qed.
+Print Assumptions C01_header_faithful_every_layout.
